@@ -73,7 +73,7 @@ C = {
    "capacities enumerated per sampled (buffer, cut); buffers sampled",
    SIM + "early exit (EOF/Err) at every cut through the restore paths; storage monitor; capacity enumeration differential"),
  "C18": ("exploration", "§5 C18",
-   "Histories of 1..4 earlier calls (other messages, prefixes, corrupted ones, any config, init and uninit entry points, relocated or same-address buffers) on one value, then a probe (one history in 40 is a threshold history: an unrelated earlier message, growing prefixes of a message with a >= 128..16 KiB element cut near the threshold or between the structural bytes after it, then the message, at one address); and connections served by a value kept across Partial / across messages / shared by all connections (interleaving decided by the event queue). Every call on a reused value is repeated on a fresh value of equal capacity: status, and fields/headers on Complete, must be equal.",
+   "Histories of 1..4 earlier calls (other messages, prefixes, corrupted ones, any config, init and uninit entry points, relocated or same-address buffers) on one value, then a probe (one history in 40 is a threshold history: an unrelated earlier message, growing prefixes of a message with a >= 128..16 KiB element cut near the threshold or between the structural bytes after it, then the message, at one address); and connections served by a value kept across Partial / across messages / shared by all connections (interleaving decided by the event queue). Every call on a reused value is repeated on a fresh value of equal capacity: status, and fields/headers on Complete, must be equal; and a non-Complete call on a kept value must leave headers.len() as it found it (the mechanism the property is anchored in), so that the next call sees what a fresh value would.",
    "histories sampled",
    SIM + "reuse histories and multi-connection interleavings on a shared value; reused-vs-fresh differential"),
  "C19": ("exploration", "§5 C19",
